@@ -11,8 +11,9 @@ E == Trace[l]
 
 TraceInit == RegInit /\ l = 1 /\ ok = TRUE /\ TLCSet(1, 0)
 
-TReset == E.op = "reset" /\ prog' = <<>> /\ curPrefix' = <<>> /\ curMw' = <<>> /\ saved' = <<>> /\ global' = <<>> /\ routes' = <<>> /\ ok' = TRUE
-TEnter == E.op = "enter" /\ Enter(E.prefix, E.mw) /\ ok' = TRUE
+TReset == /\ E.op = "reset" /\ prog' = <<>> /\ curPrefix' = <<>> /\ curMw' = <<>> /\ saved' = <<>> /\ global' = <<>> /\ routes' = <<>>
+          /\ commonArr' = Common0 /\ curAlias' = 0 /\ ok' = TRUE
+TEnter == E.op = "enter" /\ Enter(E.prefix, E.mw, E.common) /\ ok' = TRUE
 TExit  == E.op = "exit" /\ Exit /\ ok' = TRUE
 TUse   == E.op = "use" /\ Use(E.mw) /\ ok' = TRUE
 TAdd   == E.op = "add" /\ Add(E.path, E.mw) /\ ok' = (routes'[Len(routes')].path = E.got)
